@@ -371,7 +371,10 @@ def run_case(case):
     if case["kind"] in ("cell", "seq") or int(h, 16) % 4 == 0 or TIER[0] == "thorough":
         csv_opts += [([names0[0]], None, None), (names0[::-1], None, "\\n"), (None, [names0[0]], "\\r\\n"), (names0 + ["zz"], ["_generated"], "\n"),
                      (["_source", names0[-1]], [names0[-1]], None), (None, ["_source", "_classification", "_generated", "_version"], "\\r")]
-        line_opts += [([names0[0]], None, False), (None, [names0[0]], True), (names0 + ["zz"], ["_version"], False)]
+        line_opts += [([names0[0]], None, False), (None, [names0[0]], True), (names0 + ["zz"], ["_version"], False),
+                      # selections that leave some (or every) record without any field, plain and verbose
+                      ([names0[0]], None, True), (["zz"], None, True), (["zz"], None, False), (["extra", "p"], None, True),
+                      (None, names0 + ["extra", "t", "p", "s", "n", "_source", "_classification", "_generated", "_version"], True)]
         specs += ["{%s}" % names0[0], "{%s}-{%s}" % (names0[0], names0[-1]), "{zz}", "{%s!r}" % names0[0], "a\\t{%s}\\n" % names0[0], "{_source}|{%s}" % names0[-1],
                   "{%s.real}/{%s[0]}" % (names0[-1], names0[0]), "{%s[0]}" % names0[0], "{_generated.year}-{%s.imag}" % names0[-1], "{%s.denominator:>4}" % names0[-1],
                   "\u2192 {%s}\\t\u20ac" % names0[0], "\xe9\\n{%s}\\r\U0001f600" % names0[0], "caf\xe9 {%s}" % names0[0], "\\x41{%s}\\u0042" % names0[0]]
